@@ -212,60 +212,4 @@ pub fn on_named_thread<T: Send + 'static>(name: &str, f: impl FnOnce() -> T + Se
         .expect("rig thread panicked")
 }
 
-// ---------------------------------------------------------------------------------------------
-// request builders (harness-side; independent of the client binary)
-
-pub fn le32(x: u32) -> [u8; 4] {
-    x.to_le_bytes()
-}
-
-/// encode a tag-value message from (wire tag, value) pairs given in wire order
-pub fn enc_msg(fields: &[(&[u8; 4], Vec<u8>)]) -> Vec<u8> {
-    let n = fields.len();
-    let mut out = vec![];
-    out.extend(le32(n as u32));
-    let mut off = 0usize;
-    for (i, (_, v)) in fields.iter().enumerate() {
-        if i > 0 {
-            out.extend(le32(off as u32));
-        }
-        off += v.len();
-    }
-    for (t, _) in fields {
-        out.extend_from_slice(*t);
-    }
-    for (_, v) in fields {
-        out.extend_from_slice(v);
-    }
-    out
-}
-
-pub fn classic_request(nonce: &[u8], total_len: usize) -> Vec<u8> {
-    // NONC + PAD so that the whole message is total_len bytes: header 4 + 4 + 8 = 16
-    let pad = total_len.saturating_sub(16 + nonce.len());
-    enc_msg(&[(b"NONC", nonce.to_vec()), (b"PAD\xff", vec![0u8; pad])])
-}
-
-pub fn frame(body: &[u8]) -> Vec<u8> {
-    let mut v = b"ROUGHTIM".to_vec();
-    v.extend(le32(body.len() as u32));
-    v.extend_from_slice(body);
-    v
-}
-
-/// IETF request: VER [SRV] NONC ZZZZ, framed, total datagram length `total_len`
-pub fn ietf_request(ver: &[u8], srv: Option<&[u8]>, nonce: &[u8], total_len: usize) -> Vec<u8> {
-    let nfields = if srv.is_some() { 4 } else { 3 };
-    let header = 4 + 4 * (nfields - 1) + 4 * nfields;
-    let fixed = 12 + header + ver.len() + srv.map(|s| s.len()).unwrap_or(0) + nonce.len();
-    let pad = total_len.saturating_sub(fixed) / 4 * 4;
-    let mut fields: Vec<(&[u8; 4], Vec<u8>)> = vec![(b"VER\0", ver.to_vec())];
-    if let Some(s) = srv {
-        fields.push((b"SRV\0", s.to_vec()));
-    }
-    fields.push((b"NONC", nonce.to_vec()));
-    fields.push((b"ZZZZ", vec![0u8; pad]));
-    frame(&enc_msg(&fields))
-}
-
-pub const VER13: [u8; 4] = [0x0c, 0x00, 0x00, 0x80];
+pub use crate::wire::{classic_request, enc_msg, frame, ietf_request, le32, VER13};
